@@ -193,18 +193,27 @@ example : SpecC13.wf (.obj [([97], .num [46, 53])]) = false := by rfl
 
 /-! ### the oracle applied to the implementation -/
 
-/-- a processed event passes the oracle only with one of the five defined `ActionResult`s and
-    a re-parsable event -/
+/-- a processed event passes the oracle only with one of the five defined `ActionResult`s (a
+    time-out event only with Discard, the one result that does not forward or keep the
+    document-less event) and a re-parsable event -/
 theorem action_result_defined (res status : String) (h : SpecC13.pairOk res status = true)
     (hs : SpecC13.isSkip status = false) :
-    res ∈ SpecC13.definedResults ∧ status = "ok" := by
+    (res ∈ SpecC13.definedResults ∨ res = "t:discard") ∧ status = "ok" := by
   unfold SpecC13.pairOk at h
   rw [hs] at h
-  simp only [Bool.false_eq_true, if_false, Bool.and_eq_true, beq_iff_eq] at h
-  exact ⟨List.contains_iff_mem.mp h.1, h.2⟩
+  simp only [Bool.false_eq_true, if_false, Bool.and_eq_true, Bool.or_eq_true, beq_iff_eq] at h
+  refine ⟨?_, h.2⟩
+  rcases h.1 with h1 | h1
+  · exact Or.inl (List.contains_iff_mem.mp h1)
+  · right
+    have := List.contains_iff_mem.mp h1
+    simpa [SpecC13.timeoutResults] using this
 
 example : SpecC13.pairOk "hold" "ok" = true ∧ SpecC13.isSkip "ok" = false := by decide
 example : SpecC13.pairOk "undef7" "ok" = false := by decide
+example : SpecC13.pairOk "t:discard" "ok" = true := by decide
+/-- parse_es answering Pass / Collapse to a time-out event while it waits for a document line -/
+example : SpecC13.pairOk "t:pass" "ok" = false ∧ SpecC13.pairOk "t:collapse" "ok" = false := by decide
 example : SpecC13.pairOk "-" "panic:bounds@cfg/substitution.(*TrimToFilter).Apply:alone" = false := by decide
 example : SpecC13.pairsOk 2 ["pass", "ok", "hold", "ok", "st:ok"] = true := by decide
 example : SpecC13.pairsOk 1 ["pass", "ok", "st:changed@0"] = false := by decide
